@@ -250,6 +250,8 @@ def stream_cases(ctx, env):
         ("two rejection calls, n_batches 3 then 2", [("rej", dict(n_batches=3, n_linear_samples=2)), ("rej", dict(n_batches=2))]),
         ("rejection + iterative on one object", [("rej_fn", dict(n_batches=4, randomize_prior_order=True)), ("it_fn", dict(n_requested_samples=2, init_batch_size=16, growth_factor=2, n_batches=3))]),
         ("three calls default batching", [("rej", {}), ("rej", {}), ("rej_fn", dict(n_batches=5))]),
+        ("in-memory calls (no child generators: every draw from the sampler's own stream), then a file call",
+         [("rej_mem", {}), ("rej_mem", dict(n_linear_samples=2)), ("it_mem", dict(n_requested_samples=2, init_batch_size=16, growth_factor=2)), ("rej_fn", dict(n_batches=2))]),
     ]
     for label, calls in scenarios:
         gen = RecGen(2024)
@@ -264,6 +266,10 @@ def stream_cases(ctx, env):
                     mark = len(gen.ss.spawn_log)
                     if kind == "rej":
                         s = joker.rejection_sample(env["data"], env["lib"], **kw)
+                    elif kind == "rej_mem":
+                        s = joker.rejection_sample(env["data"], env["lib"], in_memory=True, **kw)
+                    elif kind == "it_mem":
+                        s = joker.iterative_rejection_sample(env["data"], env["lib"], in_memory=True, **kw)
                     elif kind == "rej_fn":
                         s = joker.rejection_sample(env["data"], env["fn"], **kw)
                     else:
@@ -333,7 +339,7 @@ def run(ctx):
         "non-empty output for equal seeds",
         assumptions=["numpy's SeedSequence.spawn contract: children with distinct spawn keys are independent streams",
                      "pymc.draw(random_seed=Generator) derives all its randomness from that generator",
-                     "static scan rules R1-R9 (tools/rng_scan.py) are the code-level reading of the model's effect discipline"],
+                     "static scan rules R1-R10 (tools/rng_scan.py) are the code-level reading of the model's effect discipline"],
     )
 
 
